@@ -374,6 +374,8 @@ func (x *Exec) need(name string) {
 	x.needPrelude[blk] = true
 	for _, r := range b.requires {
 		switch {
+		case strings.HasPrefix(r, "block:"):
+			x.need(strings.TrimPrefix(r, "block:"))
 		case strings.HasPrefix(r, "Slice_"):
 			x.u.sliceSort(strings.TrimPrefix(r, "Slice_"))
 		case r == "GoString" || r == "Time":
